@@ -902,25 +902,13 @@ def execute(trace):
             "unsimulated": sorted(set(sim.facade.unsimulated))}
 
 
-HOST_ZONES_WEST = [-19800, 12600, -45900, 1800, -50400, 39600, -3600, -60,
-                   34200, -20700]
-
-
-def posix_tz(west):
-    """POSIX TZ string of a fixed zone `west` seconds west of UTC (the sign
-    in TZ is that of `time.timezone`: XST-5:30 is UTC+05:30)."""
-    a = abs(west)
-    return "XST%s%d:%02d" % ("-" if west < 0 else "+", a // 3600,
-                             (a % 3600) // 60)
-
-
 def gen_hostzone(rng, index):
     """A random history run in an interpreter that was STARTED in a zone
     that is not UTC: the library is imported (and anything it sets up at
     import time is set up) under that zone, the simulated world then starts
     in the same zone and moves away from it and back."""
     trace = gen_random(rng, index)
-    west = HOST_ZONES_WEST[index % len(HOST_ZONES_WEST)]
+    west = kernel.HOST_ZONES_WEST[index % len(kernel.HOST_ZONES_WEST)]
     zones = [list(z) for z in trace["zones"]]
     zones[0] = [west, west, 0]
     steps = []
@@ -930,54 +918,13 @@ def gen_hostzone(rng, index):
             steps.append({"k": "pert", "act": ["tzset", 0]})
             steps.append({"k": "pert", "act": ["dst", 0]})
     trace.update(kind="hostzone", zones=zones, cur=0, isdst=0,
-                 host_tz=posix_tz(west), steps=steps)
+                 host_tz=kernel.posix_tz(west), steps=steps)
     return trace
-
-
-def run_in_host_zone(trace):
-    """execute(trace) in a spawned interpreter whose TZ is trace['host_tz']
-    (the real `time` module reports that zone at import time)."""
-    import json
-    import os
-    import subprocess
-    import sys
-    import tempfile
-    fd, path = tempfile.mkstemp(prefix="verif-host-", suffix=".json")
-    try:
-        with os.fdopen(fd, "w") as out:
-            json.dump(trace, out)
-        proc = subprocess.run(
-            [sys.executable, os.path.join(kernel.VERIF_DIR, "check.py"),
-             "_c18host", path], capture_output=True, text=True, timeout=600,
-            env=dict(os.environ, VERIF_REPO=kernel.REPO,
-                     TZ=trace["host_tz"], PYTHONHASHSEED="0"))
-    finally:
-        os.remove(path)
-    line = [ln for ln in proc.stdout.splitlines() if ln.startswith("HOST ")]
-    if not line:
-        raise kernel.HarnessError(
-            "spawned host-zone run failed: " + proc.stderr[-400:])
-    return json.loads(line[0][5:])
-
-
-def host_main(path):
-    """Entry of the spawned interpreter (check.py _c18host <trace file>)."""
-    import json
-    import time
-    with open(path) as inp:
-        trace = json.load(inp)
-    west = trace["zones"][0][0]
-    if time.timezone != west:
-        raise kernel.HarnessError("host zone not in force: %r != %r" % (
-            time.timezone, west))
-    res = execute(trace)
-    print("HOST " + json.dumps(res, default=str))
-    return 0
 
 
 def check_trace_full(trace):
     if trace.get("host_tz"):
-        res = run_in_host_zone(trace)
+        res = kernel.run_in_host_zone(PROP, trace)
     else:
         res = kernel.in_fresh_fork(execute, (trace,))
     counters = dict(res["counters"])
